@@ -19,7 +19,9 @@ Abstractions (recorded, validated by the correspondence run):
   itself as a state machine (`C16.run`) and the proof that it terminates with exactly the yields of this
   recursion (`C16.run_refines_dfs`), so this abstraction is a theorem, not an assumption.
 * `single_source_shortest_mixed_path` is a level-synchronous BFS whose `paths` dict doubles as the
-  visited set; only its key set is used by the callers, which is the worklist closure. -/
+  visited set; only its key set is used by the callers, which is the worklist closure
+  (`Pw/C16/LevelBfs.lean`: the level loop written out, `C16.mem_possibleLoop_desc/_anc` prove it returns
+  the same set). -/
 namespace C16
 
 /-- `G.has_edge(u, v)` with `edge_type="any"`: directional in the `DiGraph` layers (directed, circle),
